@@ -67,6 +67,15 @@ func allChecks() []CheckSpec {
 						c.MaxPaths = 8000000
 						c.MaxWallS = 1500
 					}},
+				{Fn: "verifC11RestartDuringCycle", Lemma: "Restart issued after GatherCandidates returned, at any explored moment of the running cycle (incl. the instant before it reports completion): once Restart has returned and the old cycle wound down the gathering state is New (a superseded cycle cannot overwrite it), the old cycle emitted its nil candidate at most once, and a fresh cycle is accepted, completes and emits exactly one more",
+					Bounds: "Restart after 0..8 (thorough 0..12) fair hand-overs, context bound 1 (thorough 2), first 4 (6) free switches explored, fake net without interfaces", MustReach: []string{"completed-before-restart", "cancelled-by-restart", "done"},
+					Cfg: func(c *HarnessCfg, tier int) {
+						c.GoPolicy = "explore"
+						c.ContextBound = 1 + tier
+						c.FreeChoiceBound = 4 + 2*tier
+						c.MaxPaths = 8000000
+						c.MaxWallS = 1500
+					}},
 			},
 			Assumptions: append([]string{
 				"threads switch only at synchronisation operations (sound for data-race-free code); schedule-dependent counterexamples are replayed by re-executing the recorded schedule on the SSA of the real code",
